@@ -11,6 +11,30 @@ import types
 import numpy as np
 
 
+def c_log(x):
+    """libm log: -inf at 0, nan below (math.log raises instead)"""
+    x = float(x)
+    if x == 0.0:
+        return float("-inf")
+    if x < 0.0 or x != x:
+        return float("nan")
+    return math.log(x)
+
+
+def c_sqrt(x):
+    x = float(x)
+    return float("nan") if (x < 0.0 or x != x) else math.sqrt(x)
+
+
+def c_pow(a, b):
+    try:
+        return pow(a, b)
+    except OverflowError:
+        return float("inf")
+    except ZeroDivisionError:
+        return float("inf")
+
+
 class Recorder:
     def __init__(self):
         self.tables = {}
@@ -112,7 +136,7 @@ def interpreted(fn, rec=None, extra=None, helpers=()):
             g[k] = v
     g["np"] = NPProxy(rec)
     if rec is not None:
-        for name, base in (("log", math.log), ("sqrt", math.sqrt), ("erf", math.erf), ("pow", pow)):
+        for name, base in (("log", c_log), ("sqrt", c_sqrt), ("erf", math.erf), ("pow", c_pow)):
             if name in g or name == "pow":
                 g[name] = rec.wrap(name, base)
         if "sc" in g:
@@ -126,6 +150,13 @@ def interpreted(fn, rec=None, extra=None, helpers=()):
     for h in helpers:
         if h in f.__globals__:
             g[h] = interpreted(f.__globals__[h], rec, extra)
+    # called from the interpreter an njit function raises on float division by zero; inside compiled callers it
+    # follows IEEE (inf / nan): give the interpreted copy the IEEE behaviour
+    if "ws2d" in g and hasattr(g["ws2d"], "py_func"):
+        if "ws2d" not in _NB:
+            from numba import njit
+            _NB["ws2d"] = njit(error_model="numpy")(g["ws2d"].py_func)
+        g["ws2d"] = _NB["ws2d"]
     # numba's prange is range in the interpreter
     if "numba" in g:
         g["numba"] = types.SimpleNamespace(prange=range)
